@@ -32,6 +32,14 @@ Definition remu a b := Z.rem a b.
 Definition shlu a n := if n <? 64 then wrapu (a * 2 ^ n) else 0.
 Definition shru a n := if n <? 64 then a / 2 ^ n else 0.
 
+(* `for cond { body }` over the tuple of variables the body assigns (gofrag): at most `fuel` evaluations of the
+   condition; None when the fuel runs out before the condition turns false *)
+Fixpoint while_fuel {S : Type} (fuel : nat) (cond : S -> bool) (body : S -> S) (s : S) : option S :=
+  match fuel with
+  | O => None
+  | Datatypes.S k => if cond s then while_fuel k cond body (body s) else Some s
+  end.
+
 Definition oget {A} (d : A) (o : option A) : A := match o with Some x => x | None => d end.
 Definition is_some {A} (o : option A) : bool := match o with Some _ => true | None => false end.
 Definition is_none {A} (o : option A) : bool := match o with Some _ => false | None => true end.
